@@ -10,6 +10,7 @@
 import Driver.C06
 import Driver.Cast
 import Driver.Std
+import Driver.Line
 
 open Jl
 
@@ -18,6 +19,8 @@ def runLine (line : String) : Driver.Result :=
   | ["c06", ops, obs] => DriverC06.runCase ops obs
   | ["cast", prop, callee, src, ext, impl] => Driver.CastCase.runCase prop callee src ext impl
   | ["rt", prop, via, src, ext, text, back] => Driver.CastCase.runRT prop via src ext text back
+  | ["line", prop, ti, to, line, ext, impl] => Driver.Line.runLine prop ti to line ext impl
+  | ["emit", prop, to, val, ext, impl] => Driver.Line.runEmit prop to val ext impl
   | ["std", fn, args, impl] => Driver.Std.runCase fn args impl
   | kind :: _ => ⟨"B", s!"unknown case kind or arity: {kind}"⟩
   | [] => ⟨"B", "empty line"⟩
